@@ -17,6 +17,8 @@ import YalafiVerif.Proofs.PlainComment
 import YalafiVerif.Generated.Init
 import YalafiVerif.Proofs.PlainFootnote
 import YalafiVerif.Properties.PlainVanishStmt
+import YalafiVerif.Properties.PlainGroupStmt
+import YalafiVerif.Properties.PlainMixStmt
 namespace Yalafi
 
 /-- tokens returned by `parser_work` (the main flow) are of output classes, whatever the text -/
